@@ -4,7 +4,7 @@ from __future__ import annotations
 
 import copy
 
-from . import schema_gen, schema_h
+from . import core, schema_gen, schema_h
 from .runner import Suite
 
 HOOK_KEY = "hook-enforced-by-one-backend:"
@@ -60,6 +60,11 @@ def digit_string_vs_int(a, b) -> bool:
     return False
 
 
+import collections
+
+INFO_FORM_DIFFS: collections.Counter = collections.Counter()
+
+
 def attr_name_members(case):
     """does the input carry a member named like the Python ATTRIBUTE of an aliased field of its class?
     -> None | "both" (the alias member is present too) | "only" """
@@ -105,6 +110,9 @@ def agree(case, o):
         pv[k], fv[k] = p.get(k), f.get(k)
     for k in sorted(pv):
         d = first_diff(pv.get(k), fv.get(k))
+        if d and k.startswith("info_"):
+            INFO_FORM_DIFFS[k] += 1  # argument combinations the library never uses: counted, not judged
+            continue
         if d:
             return (tag or f"serialised-form-differs:{k}",
                     f"{case.get('cls', 'message')}: form '{k}' differs at {d[0]}: {d[1]!r} under pydantic, {d[2]!r} under the fallback",
@@ -625,7 +633,68 @@ class Constructors(Suite):
     pass-through, list-of-instances and default-argument branches of both backends"""
 
     name = "constructors"
-    uses_model = False
+    uses_model = True
+    _gen = None
+
+    def generated(self):
+        """(module, name) of the helpers Gen/Builders.lean carries, and the parse_* dispatch tables"""
+        if Constructors._gen is None:
+            from . import core, translate_schema
+
+            views = translate_schema.load_views()
+            src = core.REPO / "src" / "chuk_mcp"
+            built, _ = translate_schema.find_builders(src, views["fallback"]["classes"])
+            parsers = translate_schema.find_parse_tables(src, views["fallback"]["classes"])
+            Constructors._gen = ({(b["module"], b["qual"]) for b in built}, {(p["module"], p["qual"]) for p in parsers})
+        return Constructors._gen
+
+    @staticmethod
+    def wire_args(v):
+        if isinstance(v, dict):
+            if "$model" in v:
+                return v["wire"]
+            if "$tuple" in v:
+                return [Constructors.wire_args(x) for x in v["$tuple"]]
+            return {k: Constructors.wire_args(x) for k, x in v.items()}
+        if isinstance(v, list):
+            return [Constructors.wire_args(x) for x in v]
+        return v
+
+    def model_line(self, case):
+        built, parsers = self.generated()
+        key = (case["module"], case["qual"])
+        if case.get("returns"):
+            wire = next(iter(case["kwargs"].values()))
+            if key in parsers:
+                return {"m": "schema", "op": "parseBy", "name": case["qual"], "j": schema_h.enc(wire)}
+            return {"m": "schema", "op": "validate", "cls": case["returns"], "j": schema_h.enc(wire)}
+        if key in built:
+            return {"m": "schema", "op": "build", "module": case["module"], "name": case["qual"],
+                    "j": schema_h.enc(self.wire_args(case["kwargs"]))}
+        return None
+
+    def model_obs(self, out, case):
+        if "driver_error" in out or out.get("untranslated"):
+            return {"skip": out.get("driver_error") or "untranslated"}
+        m = {"ok": out["ok"]}
+        if out["ok"]:
+            m["dump"] = schema_h.dec(out["dump"])
+            m["tree"] = out["tree"]
+        return m
+
+    def compare(self, case, o, m):
+        if "skip" in m:
+            return None if m["skip"] == "untranslated" else "driver: " + str(m["skip"])
+        for side in ("fallback", "pydantic"):
+            r = o[side]
+            if bool(r.get("ok")) != bool(m["ok"]):
+                return f"helper result accepted/raised differs from the {side} backend"
+            if m["ok"]:
+                if not schema_h.same(r.get("dump"), m["dump"]):
+                    return f"helper result dumps differently from the {side} backend"
+                if "tree" in r and r.get("tree") != m["tree"]:
+                    return f"helper result is typed differently from the {side} backend"
+        return None
 
     def ctors(self):
         from . import translate_schema
@@ -694,3 +763,265 @@ class Constructors(Suite):
         for k, v in kw.items():
             for y in shrink_json(v, frozenset(("$model", "wire")), 1):
                 yield {**case, "kwargs": {**kw, k: y}}
+
+
+class HelperFlows(Suite):
+    """the remaining helper functions of types/content.py, types/tools.py, types/elicitation.py driven
+    end to end under both backends: content predicates / content_to_dict / parse_content on dicts and
+    instances, validate_tool_result / tool_result_to_dict / parse_tool_result, ToolRegistry.call_tool
+    with every kind of handler outcome (twice on one registry), ElicitationClient / ElicitationHandler
+    with every kind of reply, create_embedded_resource with bytes.  Where the helper builds a model
+    through a generated builder the Lean evaluation of that builder predicts the emitted object."""
+
+    name = "helper-flows"
+
+    def cases(self, ctx, budget):
+        S = schema_h.schema()
+        G = gen()
+        rng = ctx.sub_rng(self.name)
+        n = 6 if budget == "quick" else 60
+        out = []
+        magic = sorted({v for m in schema_h.magic().values() for v in m["strs"][:40]})
+        for cid in ("TextContent", "ImageContent", "AudioContent", "EmbeddedResource"):
+            if cid in S:
+                for _ in range(n):
+                    out.append({"flow": "content-kind", "cls": cid, "wire": G.obj(cid, rng, extras=rng.choice(["none", "random", "sibling"])),
+                                "bad_tag": rng.choice(magic + ["", "TEXT", "Text", " text"])})
+        tr = "ToolResult@protocol.types.tools"
+        if tr in S:
+            for w in ({}, {"content": []}, {"structuredContent": []}, {"content": [], "structuredContent": []}, {"isError": False}):
+                out.append({"flow": "tool-result", "cls": tr, "wire": w})
+            for _ in range(2 * n):
+                out.append({"flow": "tool-result", "cls": tr, "wire": G.obj(tr, rng, extras=rng.choice(["none", "random"]))})
+            rets = [("unknown", None)]
+            rets += [("result", G.obj(tr, rng, extras="none")) for _ in range(n)] + [("result", {})]
+            rets += [("dict", schema_gen.any_object(rng)) for _ in range(n)] + [("dict", {}), ("dict", {"result": None}), ("dict", {"schema": 1, "schema_": 2})]
+            rets += [("str", sv) for sv in rng.sample(schema_gen.STRS, min(n, len(schema_gen.STRS)))] + [("str", "")]
+            rets += [("other", ov) for ov in (0, 1, 7.5, True, False, None, [], [1, "a"], [None])]
+            rets += [("raise", sv) for sv in rng.sample(schema_gen.STRS, min(n, len(schema_gen.STRS)))] + [("raise", ""), ("raise", "%s {0}")]
+            for k, v in rets:
+                out.append({"flow": "registry", "ret": {"kind": k, "value": v}})
+        if "ElicitationParams" in S:
+            from .props.c09 import ID_SHAPES
+            for i in range(2 * n):
+                msg = {"jsonrpc": "2.0", "method": "elicitation/create", "id": ID_SHAPES[i % len(ID_SHAPES)]}
+                if i % 5:
+                    msg["params"] = G.obj("ElicitationParams", rng, extras=rng.choice(["none", "random"]))
+                    if i % 7 == 0:
+                        msg["params"] = {k: v for k, v in msg["params"].items() if k != "schema"}
+                c = {"flow": "elicit-client", "message": msg}
+                if i % 3 == 0:
+                    c["raise"] = rng.choice(schema_gen.STRS)
+                else:
+                    c["data"] = rng.choice([{}, schema_gen.any_object(rng), {"confirmed": False}, {"": ""}])
+                out.append(c)
+            replies = [
+                {"id": "$same", "result": {"data": {}}}, {"id": "$same", "result": {"data": {"a": None}, "cancelled": False}},
+                {"id": "$same", "result": {"data": {"x": 0}, "cancelled": True, "extra": ""}},
+                {"id": "$same", "result": {}}, {"id": "$same", "result": {"cancelled": True}},
+                {"id": "$same", "error": {"code": -1, "message": "no %s"}}, {"id": "$same", "error": {"code": 0}},
+                {"id": "$same", "error": {}, "result": {"data": {}}}, {"id": "$same"}, {"id": "someone-else", "result": {"data": {}}},
+                {"result": {"data": {}}}, {"id": "", "result": {"data": {}}}, {"id": 0, "result": {"data": {}}},
+            ]
+            for r in replies:
+                out.append({"flow": "elicit-route", "cls": "ElicitationParams", "wire": G.obj("ElicitationParams", rng, extras="random"), "reply": r})
+            out.append({"flow": "elicit-route", "cls": "ElicitationParams", "wire": G.obj("ElicitationParams", rng, extras="none"),
+                        "reply": {"id": "$same", "result": {"data": {"k": 1}}}, "timeout": 0})
+        for q in ["", "one", "a b c d e", "%s {0}\n", "x" * 500]:
+            out.append({"flow": "example-tool", "arguments": {"query": q}})
+        out.append({"flow": "example-tool", "arguments": {}})
+        if "EmbeddedResource" in S:
+            import base64
+            for raw in (b"", b"\x00", b"\xff\xfe binary \n", bytes(range(256)), b"x" * 3000):
+                out.append({"flow": "embedded-bytes", "uri": rng.choice(["file:///b", "", "u r i"]), "mime": rng.choice([None, "application/octet-stream", ""]),
+                            "b64": base64.b64encode(raw).decode()})
+        return out
+
+    def impl_batch(self, cases):
+        return schema_h.both("flow", cases)
+
+    # the handler outcome -> the generated builder call_tool uses for it (types/tools.py ToolRegistry.call_tool)
+    def model_line(self, case):
+        if case["flow"] != "registry":
+            return None
+        k, v = case["ret"]["kind"], case["ret"]["value"]
+        mod = "chuk_mcp.protocol.types.tools"
+        if k == "result":
+            return {"m": "schema", "op": "validate", "cls": "ToolResult@protocol.types.tools", "j": schema_h.enc(v)}
+        if k == "dict":
+            name, args = "create_structured_tool_result", {"data": v}
+        elif k == "str":
+            name, args = "create_text_tool_result", {"text": v}
+        elif k == "other":
+            name, args = "create_structured_tool_result", {"data": {"result": v}}
+        elif k == "raise":
+            name, args = "create_error_tool_result", {"error_message": "Tool execution error: " + v,
+                                                      "error_data": {"exception_type": "ValueError", "exception_message": v}}
+        else:
+            name, args = "create_error_tool_result", {"error_message": "Tool 'missing' not found"}
+        return {"m": "schema", "op": "build", "module": mod, "name": name, "j": schema_h.enc(args)}
+
+    def model_obs(self, out, case):
+        if "driver_error" in out or out.get("untranslated") or not out.get("ok"):
+            return {"skip": out.get("driver_error") or out.get("why") or "untranslated"}
+        return {"dump": schema_h.dec(out["dump"])}
+
+    def compare(self, case, o, m):
+        if "skip" in m:
+            return None if m["skip"] == "untranslated" else "model: " + str(m["skip"])
+        for side in ("fallback", "pydantic"):
+            r = o[side]
+            if r.get("ok") and not schema_h.same(r.get("emitted"), m["dump"]):
+                return f"call_tool's result differs from the generated builder evaluated in the model ({side})"
+        return None
+
+    def kind(self, case, o):
+        sub = case.get("ret", {}).get("kind") or case.get("cls") or ("raise" if "raise" in case else "")
+        if case["flow"] == "elicit-route":
+            sub = str(o["fallback"].get("outcome"))
+        ok = o["pydantic"].get("ok") and o["fallback"].get("ok")
+        return f"helper-flows/{case['flow']}/{sub}" + ("" if ok else "/not-executed")
+
+    def nontrivial(self, case, o):
+        return bool(o["pydantic"].get("ok") and o["fallback"].get("ok"))
+
+    def agree_oracle(self, case, o):
+        p, f = o["pydantic"], o["fallback"]
+        if not (p.get("ok") and f.get("ok")):
+            return None  # the recipe could not drive the helper: counted as not executed
+        d = first_diff(p, f)
+        if d:
+            return (f"helper-flow-differs:{case['flow']}", f"{case['flow']}: {d[0]} is {d[1]!r} under pydantic, {d[2]!r} under the fallback"[:300], None)
+        return None
+
+    def wire_oracle(self, case, o):
+        S = schema_h.schema()
+        fl = case["flow"]
+        for side in ("pydantic", "fallback"):
+            b = o[side]
+            if not b.get("ok"):
+                continue
+            if b.get("leaks"):
+                lk = b["leaks"][0]
+                return (f"attribute-name-on-the-wire:{fl}", f"{fl} emits {lk['attr']!r} of a {lk['class']} instead of {lk['wire']!r} ({side})", None)
+            bad = None
+            if fl in ("content-kind", "tool-result"):
+                t = {"k": "ref", "cls": case["cls"]}
+                em = b["to_dict_instance"] if fl == "content-kind" else b["emitted"]
+                r = lossless(S, t, case["wire"], em)
+                if r:
+                    bad = r[1]
+                pv = b["parse"].get("value") if fl == "content-kind" else b["parse"]
+                if bad is None and not schema_h.same(pv, em):
+                    bad = "parse then dump differs from the serialised form"
+            elif fl in ("registry", "embedded-bytes", "example-tool"):
+                rt = b.get("roundtrip", {})
+                if "dump" not in rt or not schema_h.same(rt["dump"], b["emitted"]):
+                    bad = f"the emitted object does not round-trip through its class: {str(rt)[:120]}"
+                if fl == "embedded-bytes" and not b.get("blob_decodes"):
+                    bad = "the blob does not decode to the bytes given"
+            elif fl == "elicit-client":
+                resp = b["response"]
+                if b["envelope"].get("value") is None or not schema_h.same(b["envelope"]["value"], resp):
+                    bad = f"the response envelope is not a lossless JSON-RPC message: {str(b['envelope'])[:120]}"
+                elif "result" in resp and not schema_h.same(b.get("roundtrip", {}).get("dump"), resp["result"]):
+                    bad = "the result does not round-trip through ElicitationResponse"
+            elif fl == "elicit-route" and b.get("request_params") is not None:
+                r = lossless(S, {"k": "ref", "cls": "ElicitationParams"}, case["wire"], b["request_params"])
+                if r:
+                    bad = r[1]
+            if bad:
+                return (f"helper-output-not-lossless:{fl}", f"{fl} under the {side} backend: {bad}"[:300], None)
+        return None
+
+    def shrink_candidates(self, case):
+        if "wire" in case and isinstance(case["wire"], dict):
+            for x in shrink_json(case["wire"], frozenset(("type", "message", "schema", "data", "mimeType", "text", "resource", "uri"))):
+                yield {**case, "wire": x}
+
+
+class DeepValidate(Suite):
+    """`_deep_validate` (fallback) against the Lean `validate` on ARBITRARY values — the str / int /
+    float / bool coercers, Literal, Optional, Union order, List / Dict of every member kind, model
+    classes — including the values the property calls invalid (F-C09c).  The property says nothing
+    about those, so a difference here is INFORMATIONAL: it is counted, listed in the evidence notes and
+    never turned into a VIOLATION or a broken obligation by itself."""
+
+    name = "deep-validate"
+    mismatches: list = []
+
+    VALUES = [None, True, False, 0, 1, -7, 12, 2**40, 0.5, 1.5, "", "a", "12", "-3", "007", "true", "True", "YES", "on", "0", "no",
+              "off", "maybe", " 1", "\u00b2", [], [1], ["a", "b"], [1, "2", None], {}, {"a": 1}, {"type": "text", "text": "t"},
+              {"type": "image", "data": "d", "mimeType": "m"}, {"uri": "file:///x"}, {"name": "n"}]
+
+    def cases(self, ctx, budget):
+        S = schema_h.schema()
+        prim = [{"k": "str"}, {"k": "int"}, {"k": "float"}, {"k": "bool"}, {"k": "any"}, {"k": "lit", "vals": ["a", "12", "true"]}]
+        tys = list(prim)
+        for p in prim:
+            tys += [{"k": "opt", "t": p}, {"k": "list", "t": p}, {"k": "dict", "kt": {"k": "str"}, "t": p}]
+        tys += [{"k": "union", "ts": [a, b]} for a in prim[:4] for b in prim[:4] if a != b]
+        tys += [{"k": "opt", "t": {"k": "union", "ts": [{"k": "int"}, {"k": "str"}]}},
+                {"k": "union", "ts": [{"k": "lit", "vals": ["a"]}, {"k": "str"}]},
+                {"k": "list", "t": {"k": "union", "ts": [{"k": "int"}, {"k": "bool"}]}}]
+        seen = set()
+        for c in S.values():  # every field type of every class, as declared
+            for f in c["fields"]:
+                key = core.canon(f["ty"])
+                if c["protocol"] and key not in seen:
+                    seen.add(key)
+                    tys.append({**f["ty"], "_field": [c["id"], f["name"]]})
+        rng = ctx.sub_rng(self.name)
+        out = []
+        for t in tys:
+            vals = self.VALUES if budget != "quick" or t in prim else rng.sample(self.VALUES, 12)
+            if "_field" in t and t["k"] == "dict" and t["t"]["k"] == "any" and t["kt"]["k"] == "any":
+                # a bare `dict` annotation goes through `dict(value)`: an empty list becomes {} — the model's
+                # `dict any` rejects arrays; left out (documented deviation on invalid input)
+                vals = [v for v in vals if not isinstance(v, list)]
+            for v in vals:
+                # string -> float is modelled for ASCII integers only (documented): other numeric strings are left out
+                if isinstance(v, str) and core.canon(t).find('"float"') >= 0 and v.strip() != v:
+                    continue
+                c = {"ty": {k: x for k, x in t.items() if k != "_field"}, "value": v}
+                if "_field" in t:
+                    c["field"] = t["_field"]  # validated against the annotation as the class declares it
+                out.append(c)
+        return out
+
+    def impl_batch(self, cases):
+        return schema_h.both("deep", cases)
+
+    def model_line(self, case):
+        return {"m": "schema", "op": "ty", "ty": case["ty"], "j": schema_h.enc(case["value"])}
+
+    def model_obs(self, out, case):
+        if "driver_error" in out:
+            return {"driver_error": out["driver_error"]}
+        m = {"ok": out["ok"], "conforms": out.get("conforms")}
+        if out["ok"]:
+            m["dump"] = schema_h.dec(out["dump"])
+            m["tree"] = out["tree"]
+        return m
+
+    def compare(self, case, o, m):
+        f = o["fallback"]
+        if f.get("ok") is None:
+            return None
+        diff = None
+        if "driver_error" in m:
+            diff = "driver error"
+        elif bool(f["ok"]) != bool(m["ok"]):
+            diff = f"fallback {'accepts' if f['ok'] else 'rejects'}, model {'accepts' if m['ok'] else 'rejects'}"
+        elif f["ok"] and (not schema_h.strict_eq(schema_h.canon(f["dump"]), schema_h.canon(m["dump"])) or f.get("tree") != m.get("tree")):
+            diff = f"fallback gives {f['dump']!r}, model {m['dump']!r}"
+        if diff and len(DeepValidate.mismatches) < 20:
+            DeepValidate.mismatches.append(f"{core.canon(case['ty'])} <- {core.canon(case['value'])}: {diff}"[:300])
+        return None  # informational (see the class docstring)
+
+    def kind(self, case, o):
+        f = o["fallback"]
+        return f"deep-validate/{case['ty']['k']}/" + ("accepted" if f.get("ok") else "rejected")
+
+    def nontrivial(self, case, o):
+        return True
